@@ -289,9 +289,9 @@ def make_halfplanes(X, plane_point, cart2plane):
         norm = np.linalg.norm(normals2d[i])
         if norm > EPSILON:
             p = normals2d[i] * ds[i] / (norm * norm)
-            halfplanes[i, :2] = p
-            halfplanes[i, 2] = normals2d[i, 1]
-            halfplanes[i, 3] = -normals2d[i, 0]
+            halfplanes[hp_idx, :2] = p
+            halfplanes[hp_idx, 2] = normals2d[i, 1]
+            halfplanes[hp_idx, 3] = -normals2d[i, 0]
             hp_idx += 1
     return halfplanes[:hp_idx]
 
